@@ -140,10 +140,15 @@ func recoverImage(cfg hapi.Config, im vos.Image, at int64, second bool) recovere
 		after := n2.Snapshot()
 		run := &SeqRun{Spec: &SeqSpec{Cfg: cfg}, Restart: &RestartObs{Before: before, After: after}}
 		// only certainly-persisted holds are compared (those present after the first recovery are all from the log)
+		var msgs []string
 		for _, v := range OracleC07(run) {
 			if !strings.Contains(v.Sig, "/") {
-				res.Second += v.Msg + "; "
+				msgs = append(msgs, v.Msg)
 			}
+		}
+		sort.Strings(msgs) // the oracle walks maps
+		for _, m := range msgs {
+			res.Second += m + "; "
 		}
 		var k9 [16]byte
 		k9[15] = 9
